@@ -1,6 +1,7 @@
 /* conn[@k] ... : connection scripts on the real library. Callbacks log events and follow a policy table. */
 #include "corr.h"
 #include <sys/time.h>
+#include <sanitizer/allocator_interface.h>
 
 #define MAXCONN 16
 #define MAXPOL 64
@@ -143,9 +144,21 @@ static int parse_policy(hconn_t *h, const char *s0) {
     return 1;
 }
 
+/* connections created with the same cfgspec SHARE one htp_cfg_t (C19): pool with reference counts */
+#define MAXCFG 16
+static struct { char *spec; htp_cfg_t *cfg; int refs; } g_cfgs[MAXCFG];
+
+static void cfg_release(htp_cfg_t *cfg) {
+    for (int i = 0; i < MAXCFG; i++) if (g_cfgs[i].cfg == cfg) {
+        if (--g_cfgs[i].refs == 0) { htp_config_destroy(cfg); free(g_cfgs[i].spec); g_cfgs[i].spec = NULL; g_cfgs[i].cfg = NULL; }
+        return;
+    }
+    htp_config_destroy(cfg);
+}
+
 static void hconn_free(hconn_t *h) {
     if (h->connp) htp_connp_destroy_all(h->connp);
-    if (h->cfg) htp_config_destroy(h->cfg);
+    if (h->cfg) cfg_release(h->cfg);
     free(h->ev);
     memset(h, 0, sizeof *h);
 }
@@ -234,8 +247,18 @@ int op_conn(int id, int n, char **t) {
     hconn_t *h = &g_conns[id];
     if (!strcmp(t[0], "new") && n == 3) {
         hconn_free(h);
+        int slot = -1;
+        for (int i = 0; i < MAXCFG; i++) if (g_cfgs[i].spec && !strcmp(g_cfgs[i].spec, t[1])) slot = i;
+        if (slot >= 0) {
+            h->cfg = g_cfgs[slot].cfg; g_cfgs[slot].refs++;
+            if (!parse_policy(h, t[2])) { hconn_free(h); return 0; }
+            h->connp = htp_connp_create(h->cfg);
+            printf("ok");
+            return 1;
+        }
         h->cfg = cfg_from_spec(t[1]);
         if (!h->cfg || !parse_policy(h, t[2])) { hconn_free(h); return 0; }
+        for (int i = 0; i < MAXCFG; i++) if (!g_cfgs[i].spec) { g_cfgs[i].spec = strdup(t[1]); g_cfgs[i].cfg = h->cfg; g_cfgs[i].refs = 1; break; }
         htp_cfg_t *c = h->cfg;
         htp_config_register_request_start(c, cb_request_start);
         htp_config_register_request_line(c, cb_request_line);
@@ -346,6 +369,11 @@ int op_conn(int id, int n, char **t) {
         if (out_other) { unsigned char *hd = out_other; size_t hl = out_len; out_other = NULL; out_len = 0; CALL(0, hd, hl); free(hd); }
         if (in_other) { unsigned char *hd = in_other; size_t hl = in_len; in_other = NULL; in_len = 0; CALL(1, hd, hl); free(hd); }
         free(in_other); free(out_other);
+        return 1;
+    }
+    if (!strcmp(t[0], "mem") && n == 1) {
+        /* live heap bytes (harness-only observation for C10's steady-state clause; the model prints nothing comparable) */
+        printf("mem=%zu", (size_t) __sanitizer_get_current_allocated_bytes());
         return 1;
     }
     if (!strcmp(t[0], "txfreed") && n == 1) { printf("%zu", htp_connp_tx_freed(cp)); return 1; }
